@@ -164,7 +164,7 @@ PROPS = {
         "level": "proof", "module": "Resolvo.Props.C01", "imports": ["Resolvo.MDet.CheckedProofs"],
         "theorems": ["Resolvo.MDet.solveChecked_ok_valid", "Resolvo.C01.valid_decided", "Resolvo.C01.valid_unfold", "Resolvo.C01.valid_mono_exempt",
                      "Resolvo.validB_iff", "Resolvo.Abs.mu_satisfies"],
-        "families": [("solve", SOLVE_Q), ("soft", SOFT_Q), ("conflictfree", CF_Q), ("hints", HINTS_Q), ("cancel-async", {"quick": 6000, "thorough": 100000})],
+        "families": [("solve", SOLVE_Q), ("soft", SOFT_Q), ("conflictfree", CF_Q), ("hints", HINTS_Q), ("cancel-async", {"quick": 6000, "thorough": 100000}), ("reuse", {"quick": 8000, "thorough": 100000})],
         "profiles": ["debug", "release"],
         "explanation": "PROVED (Lean, all universes/problems/cancellation plans/cache states/fuel): solveChecked_ok_valid - every solution returned by the checked deterministic model of Solver::solve (MDet.solve followed by the verified checkers; objections are the explicit outcome checkFailed) satisfies the full statement of C01 incl. the soft exemption; validB decides Valid exactly. "
                        "TIE: MDet.solve is compared with the real Solver::solve on every generated case for exact equality of result, solution order, provider call log (with cancellation polls) and the complete solver history (variables, clauses, assignments with levels and reasons, undos, learnt clauses with antecedents); validB is also evaluated on the implementation's own answers (debug and release builds). "
@@ -178,7 +178,7 @@ PROPS = {
         "theorems": ["Resolvo.C02.encoder_never_excludes_a_solution", "Resolvo.C02.decision_tracker_consistent", "Resolvo.MDet.solveRun_dtinv", "Resolvo.MDet.encoder_sound", "Resolvo.MDet.clause_sound", "Resolvo.MDet.solveChecked_unsat_sound", "Resolvo.MDet.solveChecked_ok_solvable", "Resolvo.C02.unsat_certified", "Resolvo.C02.decideSolvable_correct", "Resolvo.C02.ok_solvable",
                      "Resolvo.C02.verdict_invariant", "Resolvo.Abs.fail_sound", "Resolvo.Sat.rup_sound", "Resolvo.Sat.decideSat'_iff",
                      "Resolvo.encodeAll_iff", "Resolvo.Abs.step_linv", "Resolvo.Abs.step_sinv"],
-        "families": [("solve", SOLVE_Q), ("soft", SOFT_Q), ("conflictfree", CF_Q), ("hints", HINTS_Q)],
+        "families": [("solve", SOLVE_Q), ("soft", SOFT_Q), ("conflictfree", CF_Q), ("hints", HINTS_Q), ("reuse", {"quick": 8000, "thorough": 100000})],
         "explanation": "PROVED for the exact model itself, no checker in between (encoder_never_excludes_a_solution; every universe meeting the decidable provider contract, every problem / fuel / solver state carried over from earlier solves, sync and async, whatever the outcome): every valid selection of the hard problem satisfies, under the assignment it induces, every requires / constrains / lock / exclusion clause in the model's clause arena after the solve, read the way the model's own propagation reads it (positive literals of a requires clause from the cache of candidate variables) - no clause the encoder ever adds rules out a real solution; the at-most-one encoding is proved separately (C15) and what remains for the model itself is the CDCL core, covered by the checked model. Proof of a certifying checker: every Unsolvable verdict of the implementation is re-derived by a kernel-verified checker from the implementation's own history (fail_sound), and compared with a verified independent decision procedure (decideSolvable_iff). Termination/completeness of the search (C02 (d)) is not proved.",
         "assumptions": ["CandsKnown U (listed candidates have table entries) for the reference decision procedure",
                         "the verif-hooks history is emitted faithfully (an omitted event makes the checker reject, not accept)"],
@@ -205,7 +205,7 @@ PROPS = {
         "nt_rule": "ok_after_learning",
         "level": "proof", "module": "Resolvo.Props.C05", "imports": ["Resolvo.MDet.CheckedProofs"],
         "theorems": ["Resolvo.MDet.solveChecked_ok_supported", "Resolvo.C05.supportedB_sound", "Resolvo.C05.closure_sound"],
-        "families": [("solve", SOLVE_Q), ("soft", SOFT_Q), ("conflictfree", CF_Q), ("hints", HINTS_Q)],
+        "families": [("solve", SOLVE_Q), ("soft", SOFT_Q), ("conflictfree", CF_Q), ("hints", HINTS_Q), ("reuse", {"quick": 8000, "thorough": 100000})],
         "explanation": "PROVED (all inputs): every solvable in a solution returned by the checked model is Supported (solveChecked_ok_supported). TIE: exact correspondence of MDet.solve with the real solver (result, solution order, history) + supportedB on every implementation answer. NOT PROVED: that checkFailed never occurs (checked per run); completeness of the closure oracle.",
     },
     "C06": {
